@@ -114,6 +114,34 @@ def gen_outside_near(rng, S):
     return Ap @ x + bp + u
 
 
+def judge_spaced(R, pub, S, Xs, bprime, sig, where=""):
+    """property clause: every spaced solution returned on request lies within the bounds and reproduces the target.
+    A non-finite entry (NaN / inf) is neither within the bounds nor a reproduction of the target: comparisons with NaN are all
+    False, so finiteness is asked first and explicitly."""
+    ns = S["ns"]; rngw = S["ub"] - S["lb"]
+    try:
+        Xs = np.asarray(Xs, dtype=float)
+    except (TypeError, ValueError):
+        R.failB(dict(pub, spaced=repr(Xs)[:300]), "spaced solutions%s are not a numeric array" % where, sig + ":spaced-shape"); return
+    if Xs.ndim != 2 or Xs.shape[1] != ns:
+        R.failB(dict(pub, impl=Xs), "spaced solutions%s have shape %s" % (where, Xs.shape,), sig + ":spaced-shape"); return
+    R.count("spaced%s:rows:%s" % (where, "0" if Xs.shape[0] == 0 else ("n" if Xs.shape[0] == pub.get("n_spaced") else "other")))
+    if not Xs.shape[0]:
+        return
+    if not np.all(np.isfinite(Xs)):
+        R.failB(dict(pub, spaced=[[repr(float(v)) for v in r] for r in Xs[:12]]),
+                "spaced solutions%s contain non-finite entries (%d of %d rows): neither within the bounds nor reproducing the target" % (where, int(np.sum(~np.isfinite(Xs).all(axis=1))), Xs.shape[0]),
+                sig + ":spaced-not-finite:nd=%d" % S["nd"])
+        return
+    bvec = np.array([float(v) for v in bprime]); sc = float(np.max(np.abs(S["Ap"]) @ S["ub"])) + 1.0
+    resid = np.abs(Xs @ S["Ap"].T - bvec).max()
+    viol = max(float(np.max(S["lb"] - Xs)), float(np.max(Xs - S["ub"])))
+    if not resid <= 1e-7 * sc:
+        R.failB(dict(pub, spaced=Xs), "spaced solutions%s do not reproduce the target (max residual %.3g)" % (where, resid), sig + ":spaced-residual:nd=%d" % S["nd"])
+    if not viol <= 1e-7 * float(np.max(rngw)):
+        R.failB(dict(pub, spaced=Xs), "spaced solutions%s leave the bounds by %.3g" % (where, viol), sig + ":spaced-bounds:nd=%d" % S["nd"])
+
+
 def dual_hint(Ap, bprime, lbF, ubF, j, upper):
     """untrusted: multipliers (lam+ ; lam-) for the LP  min/max x_j  s.t. A x = b, box; exact from the optimal basis if possible"""
     from scipy.optimize import linprog
@@ -161,7 +189,9 @@ def run(R):
               "white, one saturated source, half of one source, faces, far outside, and outside within distance 1 of a facet (best fit inside the facet); spaced solutions n in 2..10. One third of the systems "
               "has whole-number data throughout (bounds, baseline, K) and every argument reaches dreye in a randomly chosen legitimate "
               "representation (integer dtype / list of ints when whole, a plain number for constant bounds, Fortran order, strided view, "
-              "list; the model receives the values); the in-gamut targets of a system are also asked as one 2-d batch. The exact model "
+              "list; the model receives the values); the in-gamut targets of a system are also asked as one 2-d batch, half of the batches with "
+              "spaced solutions (n in 2..4) for every row. Spaced solutions (single calls and batch rows) must be finite, within the bounds "
+              "and reproduce the target (a NaN entry is a failure: it is neither in bounds nor a reproduction). The exact model "
               "(enumeration of basic solutions in Q) is compared with dreye's ends; the model's ends are certified extremal by "
               "LP-dual multipliers checked by the verified linLower (theorems lower/upper_end_of_cert) and attained (range_ends). "
               "Non-trivial: at least two accepted candidates or a boundary target.")
@@ -237,10 +267,15 @@ def run(R):
         if len(sysjobs) >= 2:
             rr = R.rng(2, si, 99)
             Bm = np.array([j[0]["b"] for j in sysjobs])
+            # half of the batches also request spaced solutions (a few per row: n in 2..4, the single calls cover n up to 10):
+            # the third return value is then one array of solutions per row (own random stream: the rest of the run is unchanged)
+            nb_sp = int(R.rng(5, si).integers(2, 5)) if R.rng(5, si, 1).random() < 0.5 else None
+            nkw = {} if nb_sp is None else dict(n=nb_sp)
+            R.count("batch-call:spaced:%s" % ("none" if nb_sp is None else "n=%d" % nb_sp))
             with warnings.catch_warnings():
                 warnings.simplefilter("ignore")
                 stb, outb = call(range_of_solutions, give(rr, Bm, R, "B"), give(rr, S["A"], R, "A"), give(rr, S["lb"], R, "lb"), give(rr, S["ub"], R, "ub"),
-                                 K=give(rr, S["K"], R, "K"), baseline=give(rr, S["baseline"], R, "baseline"), error="raise")
+                                 K=give(rr, S["K"], R, "K"), baseline=give(rr, S["baseline"], R, "baseline"), error="raise", **nkw)
             drain()
             R.count("batch-call:rows=%d" % len(sysjobs))
             if stb == "value_error" and "outside the convex" in str(outb) and any(j[2] != "inside" for j in sysjobs):
@@ -254,12 +289,18 @@ def run(R):
                     with warnings.catch_warnings():
                         warnings.simplefilter("ignore")
                         stb, outb = call(range_of_solutions, give(rr, Bm, R, "B"), give(rr, S["A"], R, "A"), give(rr, S["lb"], R, "lb"), give(rr, S["ub"], R, "ub"),
-                                         K=give(rr, S["K"], R, "K"), baseline=give(rr, S["baseline"], R, "baseline"), error="raise")
+                                         K=give(rr, S["K"], R, "K"), baseline=give(rr, S["baseline"], R, "baseline"), error="raise", **nkw)
                     drain()
                 else:
                     sysjobs = []
             for r_, j in enumerate(sysjobs):
                 j[0]["_batch"] = (stb, (np.asarray(outb[0])[r_], np.asarray(outb[1])[r_]) if stb == "ok" else outb)
+                if stb == "ok" and nb_sp is not None:
+                    try:
+                        j[0]["_batch_spaced"] = outb[2][r_]
+                    except Exception as e:  # noqa: BLE001  (judged as a shape failure)
+                        j[0]["_batch_spaced"] = "no spaced solutions for row %d of the batch: %r" % (r_, e)
+                    j[0]["_batch_n"] = nb_sp
     R.driver.run()
     second = []
     for job in jobs:
@@ -374,14 +415,7 @@ def run(R):
         # the generating intensities lie between the ends
         if x is not None and (np.any(x < Xmin - 1e-9 * rngw) or np.any(x > Xmax + 1e-9 * rngw)):
             R.failB(dict(pub, impl=[Xmin, Xmax], solution=x), "a solution reproducing the target lies outside the reported range", sig + ":solution-outside-range")
-        # spaced solutions
-        if Xs.ndim != 2 or Xs.shape[1] != ns:
-            R.failB(dict(pub, impl=Xs), "spaced solutions have shape %s" % (Xs.shape,), sig + ":spaced-shape")
-        elif Xs.shape[0]:
-            bvec = np.array([float(v) for v in bprime]); sc = float(np.max(np.abs(S["Ap"]) @ S["ub"])) + 1.0
-            resid = np.abs(Xs @ S["Ap"].T - bvec).max()
-            viol = max(float(np.max(S["lb"] - Xs)), float(np.max(Xs - S["ub"])))
-            if resid > 1e-7 * sc:
-                R.failB(dict(pub, spaced=Xs), "spaced solutions do not reproduce the target (max residual %.3g)" % resid, sig + ":spaced-residual:nd=%d" % S["nd"])
-            if viol > 1e-7 * float(np.max(rngw)):
-                R.failB(dict(pub, spaced=Xs), "spaced solutions leave the bounds by %.3g" % viol, sig + ":spaced-bounds:nd=%d" % S["nd"])
+        # spaced solutions (the clause is judged in judge_spaced; non-finite entries are a failure, not a silent pass)
+        judge_spaced(R, pub, S, out[2], bprime, sig)
+        if "_batch_spaced" in c:
+            judge_spaced(R, dict(pub, n_spaced=c["_batch_n"]), S, c["_batch_spaced"], bprime, sig, where=":batch")
